@@ -306,6 +306,12 @@ def g2_ord(F, R):
                     if (g.get("exp") or "").startswith("Derive"):
                         continue
                     eq_fields = {fl["name"] for fl in walk(g["hir"]["value"], pats=False) if fl.get("k") == "Field" and ekey(fl["e"]).lstrip("&*") in ("self", "other")}
+                    # a hand-written `==` that goes with an order is a conjunction of field equalities: an `||` or a `!=` in it
+                    # makes values equal that the order tells apart (sort + dedup, BTree keys then behave by chance)
+                    odd = [b_ for b_ in walk(g["hir"]["value"], pats=False) if (b_.get("k") == "Binary" and b_["op"] in ("Or", "Ne", "Lt", "Gt", "Le", "Ge")) or (b_.get("k") == "Unary" and b_["op"] == "Not")
+                           or (b_.get("k") == "MethodCall" and b_["name"] == "ne")]
+                    if odd:
+                        R.bad(f"{name}|eq-not-a-conjunction", f"`==` for {name} is not a conjunction of field equalities (it contains `{odd[0].get('op') or odd[0].get('name')}`): two values can be equal although the order separates them, or unequal although it does not", loc(odd[0]))
         if eq_fields is None:
             try:
                 adt = F.adt(ty.split("<")[0])
